@@ -19,6 +19,15 @@ Sanity check by mutation (scratch copies, each reported VIOLATION with a concret
   M19 FacetIndex.index_doc stores a copy of the posting on every insert                           caught
 M1, M12 need a threshold crossing on one side and a non-crossing change of the same posting on the other,
 with the contended docid not at the head of its bucket (padded-directed generator mode).
+Text index (object-level model `HypatiaModel/ConcurrencyText.lean`, generator mode "padded-trees": DICT_CUTOFF 2
+and three padding documents per text, so that every word the transactions use has an IFBTree posting - the only
+shape in which two text-indexing transactions both commit in reality):
+  T1  IFBTree postings of a class whose `_p_resolveConflict` keeps the new state                  caught
+  T2  lexicon `_words` of a class whose `_p_resolveConflict` keeps the new state          not caught: equivalent
+      (two new words then get the same wid and both transactions insert `_wordinfo[wid]` -> ConflictError)
+  T3  `indexed_count` = a Length subclass whose `_p_resolveConflict` keeps the new state         caught
+  T4  `_add_wordinfo` / `_mass_add_wordinfo` copy an IFBTree posting of exactly 4 members into a new object
+      (the old one is left as it is - the text index's analogue of D20)                          caught
 """
 import importlib
 import os
